@@ -175,21 +175,15 @@ theorem vc_chars (vc : VC) : ∀ c ∈ vc.display, canonChar c = true := by
 
 theorem version_chars (v : Version) (h : validVersion v = true) : ∀ c ∈ v.display, canonChar c = true := by
   rw [← versionAOf_str]
-  simp only [validVersion, Bool.and_eq_true, VersionA.ok] at h
-  obtain ⟨⟨hb, he⟩, _⟩ := h
+  obtain ⟨hb, hm, _⟩ := (VersionA.ok_iff _).1 ((validVersion_iff v).1 h).1
   intro c hc
-  simp only [VersionA.str, List.mem_append] at hc
-  rcases hc with hc | hc
-  · cases hep : (versionAOf v).epoch with
-    | none => rw [hep] at hc; simp at hc
-    | some e =>
-      rw [hep] at hc he
-      simp only [List.mem_append, List.mem_cons, List.not_mem_nil, or_false] at hc
-      simp only [Bool.and_eq_true] at he
-      rcases hc with hc | rfl
-      · exact digit_chars e he.1 c hc
-      · decide
+  rw [VersionA.str_eq] at hc
+  simp only [List.mem_append, List.mem_flatten, List.mem_map] at hc
+  rcases hc with hc | ⟨l, ⟨q, hq, rfl⟩, hcl⟩
   · exact ident_chars _ hb c hc
+  · rcases List.mem_cons.1 hcl with rfl | hcq
+    · decide
+    · exact ident_chars q (hm q hq) c hcq
 
 theorem arch_chars (a : Str) (h : validArch a = true) : ∀ c ∈ a, canonChar c = true := by
   unfold validArch archItem at h
